@@ -13,8 +13,8 @@
 From Coq Require Import String NArith ZArith QArith Bool Arith Permutation List.
 From GT Require Import Base.UTree Spec.Obs Spec.Support Model.Support
      Proofs.SupportBase Proofs.SupportMTD Proofs.SupportClosed Proofs.SupportSpec Proofs.SupportDomain
-     Proofs.SupportInvariance Proofs.SupportReroot
-     Model.Index Model.HashMap Model.EdgeIndex Proofs.IndexSplit Proofs.SupportIndex.
+     Proofs.SupportInvariance Proofs.SupportReroot Model.EdgeIndex Proofs.SupportIndex.
+From GT Require Model.Index Proofs.IndexSplit.
 Import ListNotations.
 Local Close Scope Q_scope.
 Local Open Scope string_scope.
@@ -234,13 +234,13 @@ Print Assumptions same_taxa_not_rejected.
 Theorem fbp_edge_index_is_a_set_of_bipartitions :
   forall need cap ref boot puts q ecq rs mf,
     Proofs.SupportBase.good ref -> Proofs.SupportBase.good boot -> Permutation (leaves ref) (leaves boot) ->
-    (cap < W64)%N ->
-    (forall p, In p puts -> exists ec, branch_row boot ec (ek_row (fst (fst p))) /\ negb (is_tip (snd ec)) = true) ->
+    (cap < Model.Index.W64)%N ->
+    (forall p, In p puts -> exists ec, Proofs.IndexSplit.branch_row boot ec (ek_row (fst (fst p))) /\ negb (is_tip (snd ec)) = true) ->
     (forall ec, In ec (edges boot) -> negb (is_tip (snd ec)) = true ->
-                exists p, In p puts /\ branch_row boot ec (ek_row (fst (fst p)))) ->
-    branch_row ref ecq (ek_row q) ->
-    ei_run need (new_edge_index cap) (map put_op puts ++ [EIValue q]) = Some (rs, mf) ->
-    exists r, rs = map (fun _ => EIOk) puts ++ [EIVal r] /\
+                exists p, In p puts /\ Proofs.IndexSplit.branch_row boot ec (ek_row (fst (fst p)))) ->
+    Proofs.IndexSplit.branch_row ref ecq (ek_row q) ->
+    ei_run need (new_edge_index cap) (map put_op puts ++ [EIValue q])%list = Some (rs, mf) ->
+    exists r, rs = (map (fun _ => EIOk) puts ++ [EIVal r])%list /\
               (r <> None <-> index_has (tip_names ref) (fbp_index boot) (below (snd ecq)) = true).
 Proof. exact fbp_index_lookup. Qed.
 Print Assumptions fbp_edge_index_is_a_set_of_bipartitions.
@@ -248,12 +248,12 @@ Print Assumptions fbp_edge_index_is_a_set_of_bipartitions.
 Theorem tbe_edge_index_is_a_set_of_bipartitions :
   forall need cap ref boot puts q ecq rs mf,
     Proofs.SupportBase.good ref -> Proofs.SupportBase.good boot -> Permutation (leaves ref) (leaves boot) ->
-    (cap < W64)%N ->
-    (forall p, In p puts -> exists ec, branch_row boot ec (ek_row (fst (fst p)))) ->
-    (forall ec, In ec (edges boot) -> exists p, In p puts /\ branch_row boot ec (ek_row (fst (fst p)))) ->
-    branch_row ref ecq (ek_row q) ->
-    ei_run need (new_edge_index cap) (map put_op puts ++ [EIValue q]) = Some (rs, mf) ->
-    exists r, rs = map (fun _ => EIOk) puts ++ [EIVal r] /\
+    (cap < Model.Index.W64)%N ->
+    (forall p, In p puts -> exists ec, Proofs.IndexSplit.branch_row boot ec (ek_row (fst (fst p)))) ->
+    (forall ec, In ec (edges boot) -> exists p, In p puts /\ Proofs.IndexSplit.branch_row boot ec (ek_row (fst (fst p)))) ->
+    Proofs.IndexSplit.branch_row ref ecq (ek_row q) ->
+    ei_run need (new_edge_index cap) (map put_op puts ++ [EIValue q])%list = Some (rs, mf) ->
+    exists r, rs = (map (fun _ => EIOk) puts ++ [EIVal r])%list /\
               (r <> None <-> index_has (tip_names ref) (tbe_index boot) (below (snd ecq)) = true).
 Proof. exact tbe_index_lookup. Qed.
 Print Assumptions tbe_edge_index_is_a_set_of_bipartitions.
